@@ -96,6 +96,7 @@ type C15Section struct {
 	EnvPrefix string
 	Fields    []C15Field
 	Validate  []C15Conj
+	VConj     []C15VConj  // Validate() as (guard, condition) pairs, see c15_validate.go
 	EnumLoad  [][2]string // switch of the enum load: JSON text -> constant name
 	EnumSave  [][2]string // String() method of the enum type: constant name -> JSON text
 }
@@ -1241,6 +1242,7 @@ func c15one(repo string, sp c15spec) (C15Section, error) {
 	if fd := cf.funcs[vname]; fd != nil && fd.Body != nil {
 		a.vars = map[string]string{}
 		sec.Validate = a.validate(fd.Body.List, "")
+		sec.VConj = a.validateConjs(fd)
 	} else {
 		return sec, fmt.Errorf("%s: %s not found", sp.file, vname)
 	}
@@ -1393,6 +1395,7 @@ func c15one(repo string, sp c15spec) (C15Section, error) {
 		}
 		sec.Fields = append(sec.Fields, f)
 	}
+	C15ConstOpaque(&sec)
 	return sec, nil
 }
 
